@@ -119,6 +119,11 @@ def parse_kani(out, names):
         ch = '\n'.join(bl)
         m = re.search(r'VERIFICATION:-\s*(SUCCESSFUL|FAILED)', ch)
         status = m.group(1) if m else 'UNKNOWN'
+        if status == 'FAILED':
+            failed = re.findall(r'Failed Checks: (.*)', ch)
+            if failed and all('unwinding assertion' in x for x in failed):
+                # the bound was too small for the (changed) code: nothing was refuted
+                status = 'UNDETERMINED-UNWIND'
         mt = re.search(r'Verification Time: ([0-9.]+)s', ch)
         res[name] = {'status': status, 'output': ch[-6000:], 'time_s': float(mt.group(1)) if mt else None}
     return res
